@@ -166,6 +166,10 @@ def colsels_exhaustive(m, rng, n_slices=20, full_grid=False):
         h = rng.choice(HUGE)
         a, b, k = rng.choice([(None, h, None), (-h, None, None), (None, None, h), (None, None, -h), (h, None, -1), (None, -h, -1), (0, h, 2)])
         out.append({"t": "slice", "a": a, "b": b, "k": k})
+        # BOTH bounds huge, of opposite signs (their difference leaves the index dtype unless each was clipped to half its range)
+        h2 = rng.choice(HUGE)
+        a, b, k = rng.choice([(h, -h2, -1), (h, -h2, -2), (-h, h2, 1), (-h, h2, 3), (h, -h2, -h)])
+        out.append({"t": "slice", "a": a, "b": b, "k": k})
     return out
 
 
@@ -178,6 +182,10 @@ def _maybe_huge(sl, rng, p=0.05):
     if rng.random() < p:
         for f in rng.sample(["a", "b", "k"], rng.choice([1, 1, 2])):
             sl[f] = rng.choice(HUGE) * rng.choice([1, -1])
+        if rng.random() < 0.3:      # both bounds huge, opposite signs, step of the matching direction
+            h, h2 = rng.choice(HUGE), rng.choice(HUGE)
+            sg = rng.choice([1, -1])
+            sl["a"], sl["b"], sl["k"] = -sg * h, sg * h2, sg * rng.choice([1, 1, 2, 3])
     return sl
 
 
